@@ -127,6 +127,36 @@ int rsv_thread_rank(int thr)
 	return vts[thr].rank;
 }
 
+static void hang(const char *why);
+/* watchdog (DET): the thread that holds the baton consumes CPU without ever reaching a scheduling point */
+static pthread_t wd_thread;
+static int wd_started;
+static double cpu_now(void)
+{
+	struct timespec ts;
+	clock_gettime(CLOCK_PROCESS_CPUTIME_ID, &ts);
+	return (double)ts.tv_sec + (double)ts.tv_nsec * 1e-9;
+}
+static void *watchdog(void *arg)
+{
+	(void)arg;
+	uint64_t last_steps = __atomic_load_n(&steps, __ATOMIC_RELAXED);
+	double cpu_mark = cpu_now();
+	for(;;) {
+		struct timespec ts = {0, 200000000};
+		nanosleep(&ts, NULL);
+		uint64_t s = __atomic_load_n(&steps, __ATOMIC_RELAXED);
+		if(s != last_steps) {
+			last_steps = s;
+			cpu_mark = cpu_now();
+			continue;
+		}
+		if(cpu_now() - cpu_mark > (cfg.stuck_cpu_s ? cfg.stuck_cpu_s : 12.0))
+			hang("stuck: a thread consumes CPU without reaching a scheduling point");
+	}
+	return NULL;
+}
+
 void rsv_rt_init(const struct rsv_sched *c)
 {
 	cfg = *c;
@@ -156,6 +186,11 @@ void rsv_rt_init(const struct rsv_sched *c)
 	atomic_store(&trace_n, 0);
 	atomic_store(&trace_ovf, 0);
 	atomic_store(&ev_seq, 0);
+	if(cfg.mode == RSV_MODE_DET && !wd_started) {
+		wd_started = 1;
+		pthread_create(&wd_thread, NULL, watchdog, NULL);
+		pthread_detach(wd_thread);
+	}
 }
 
 void rsv_trace_enable(size_t max_records)
